@@ -12,7 +12,7 @@ pub fn def() -> CheckDef {
         id: "C08",
         level: "exploration",
         cases: |t| match t {
-            Tier::Quick => 10_000,
+            Tier::Quick => 40_000,
             Tier::Thorough => 800_000,
         },
         gen,
